@@ -126,6 +126,7 @@ def run(ctx):
     options_forwarded(ctx)
     wide_unions(ctx)
     directed_unions(ctx)
+    make_required_universal_members(ctx)
     g = SchemaGen(ctx.rnd, max_depth=2)
     reqs, exp, info = [], [], []
 
@@ -200,6 +201,42 @@ def directed_unions(ctx):
                     ctx.violation("a | b does not accept exactly the union", form=name, operands=[safe_repr(x) for x in xs],
                                   value=safe_repr(v), union=safe_repr(u))
                     return
+
+
+def make_required_universal_members(ctx):
+    """make_required(d) / make_required(d, keys) on dicts whose OPTIONAL members accept anything (untyped any, alias of it,
+    unions containing it — schemas that `==` the sentinels `...` / Nil / None): every listed (default: every) key becomes
+    required, nothing else changes"""
+    universal = [lambda: schema.any, lambda: schema.alias("U", schema.any), lambda: schema.any(schema.any, schema.none), lambda: schema.int | schema.any,
+                 lambda: schema.none, lambda: schema.any(schema.none, schema.int)]
+    for mk in universal:
+        for relaxed in (False, True):
+            items = {optional("meta"): mk(), optional("id"): schema.int, "name": schema.str, optional("u2"): mk()}
+            if relaxed:
+                items[...] = ...
+            try:
+                d = schema.dict(items)
+            except Exception:  # noqa: BLE001
+                continue
+            for keys in (None, ["meta"], ("meta", "id"), {"u2"}, ["meta", "id", "name", "u2"], []):
+                ctx.count("make_required_universal_cases")
+                try:
+                    r = make_required(d) if keys is None else make_required(d, keys)
+                except Exception as e:  # noqa: BLE001
+                    ctx.violation("make_required raised %s" % type(e).__name__, schema=safe_repr(d), keys=safe_repr(keys))
+                    continue
+                want_required = {"meta", "id", "name", "u2"} if keys is None else (set(keys) | {"name"})
+                full = {"meta": 1, "id": 2, "name": "n", "u2": None}
+                for missing in ("meta", "id", "name", "u2"):
+                    v = {k: x for k, x in full.items() if k != missing}
+                    got = ok(r, v)
+                    want = ok(d, v) and missing not in want_required
+                    if got != want:
+                        ctx.violation("make_required(d, keys) does not accept exactly the values of d in which the listed keys are present",
+                                      schema=safe_repr(d), keys=safe_repr(keys), value=safe_repr(v), accepted=got, result=safe_repr(r))
+                        return
+                if ok(r, full) != ok(d, full):
+                    ctx.violation("make_required changed the verdict on a value that has every key", schema=safe_repr(d), keys=safe_repr(keys))
 
 
 def _one(ctx, g, corr):
